@@ -68,12 +68,16 @@ type Node struct {
 	Iter        *IterSpec `json:"iter,omitempty"`
 	Enabled     Tpl       `json:"enabled,omitempty"` // nil: attribute not written (default true)
 	EnabledBare bool      `json:"enabledBare,omitempty"`
-	Defaults    []KV      `json:"defaults,omitempty"`
-	Vars        []KV      `json:"vars,omitempty"`
-	Constraints []KV      `json:"constraints,omitempty"`
-	Connect     []Chan    `json:"connect,omitempty"`
-	Bind        []Chan    `json:"bind,omitempty"`
-	Children    []*Node   `json:"children,omitempty"`
+	// EnabledBlock: written as a YAML block scalar (enabled: |), i.e. with a trailing newline
+	EnabledBlock bool `json:"enabledBlock,omitempty"`
+	// EnabledWS: the value the expression resolves to carries surrounding white space
+	EnabledWS   bool    `json:"enabledWS,omitempty"`
+	Defaults    []KV    `json:"defaults,omitempty"`
+	Vars        []KV    `json:"vars,omitempty"`
+	Constraints []KV    `json:"constraints,omitempty"`
+	Connect     []Chan  `json:"connect,omitempty"`
+	Bind        []Chan  `json:"bind,omitempty"`
+	Children    []*Node `json:"children,omitempty"`
 
 	Class    string `json:"class,omitempty"`
 	Trigger  string `json:"trigger,omitempty"`
@@ -120,7 +124,9 @@ func emitBody(sb *strings.Builder, n *Node, ind string, first string) {
 		sb.WriteString(ind + "  var: " + n.Iter.Var + "\n")
 	}
 	if n.Enabled != nil {
-		if n.EnabledBare && !n.Enabled.HasExpr() {
+		if n.EnabledBlock {
+			sb.WriteString(ind + "enabled: |\n" + ind + "  " + n.Enabled.Text() + "\n")
+		} else if n.EnabledBare && !n.Enabled.HasExpr() {
 			sb.WriteString(ind + "enabled: " + n.Enabled.Text() + "\n")
 		} else {
 			sb.WriteString(ind + "enabled: " + q(n.Enabled.Text()) + "\n")
@@ -297,6 +303,7 @@ type EvalState struct {
 	// statistics of the program (for counters and non-triviality)
 	Iterators, EmptyRanges, DisabledRoles, EmptyAggs, IterChildren, Includes, Roles int
 	CrossRefs                                                                       int
+	WsEnabledTrue, WsEnabledFalse                                                   int
 	// onStage0, when set, is called before a role's `enabled` is evaluated (used by
 	// the C14 generator to fill in probe literals during a first prediction)
 	onStage0 func(n *Node, look lookupFn)
@@ -413,9 +420,20 @@ func evalRole(n *Node, parent Layer, parentPath string, locals map[string]string
 		if err != nil {
 			return fail("enabled")
 		}
+		if n.EnabledBlock {
+			en += "\n"
+		}
+		// the resolved text counts trimmed and case-insensitively: " false " disables,
+		// "true\n" enables (core/workflow roleBase.IsEnabled)
 		if !isTrue(en) {
 			st.DisabledRoles++
+			if n.EnabledWS {
+				st.WsEnabledFalse++
+			}
 			return nil, "disabled", wouldBe
+		}
+		if n.EnabledWS {
+			st.WsEnabledTrue++
 		}
 	}
 	// STAGE1: own defaults see the parent stack only
